@@ -73,9 +73,18 @@ def validate(resp, request: bytes = b"", head: bool = False) -> Verdict:
     data = resp.data
     try:
         if fam == "gopher":
-            if handler is None or notfound:
+            if handler is None:
                 d = parsers.parse_gopher_error(data)
                 return Verdict(True, "error", parsed=d)
+            if notfound:
+                # a handler was chosen and a not-found was logged: either the request failed
+                # later (error line) or only a child entry of a listing was unservable
+                try:
+                    d = parsers.parse_gopher_error(data)
+                    if d["host"] == b"error.host":
+                        return Verdict(True, "error", parsed=d)
+                except Malformed:
+                    pass
             if handler in MENU_HANDLERS:
                 return Verdict(True, "menu", parsed=parsers.parse_gopher_menu(data))
             if handler in DOC_HANDLERS:
